@@ -204,6 +204,18 @@ Theorem C09_site_filewrites_deterministic :
 Proof. exact @site_filewrites_deterministic. Qed.
 Print Assumptions C09_site_filewrites_deterministic.
 
+(* internal/k8s/configuration.go: sorted keys, holder election, existence *)
+Theorem C09_site_sorted_keys_deterministic :
+  forall (V : Type) (l1 l2 : list (string * V)), Permutation l1 l2 -> site_sorted_keys_out l1 = site_sorted_keys_out l2.
+Proof. exact @site_sorted_keys_deterministic. Qed.
+Print Assumptions C09_site_sorted_keys_deterministic.
+
+Theorem C09_site_elect_deterministic :
+  forall (V : Type) (rank : string * V -> string) (l1 l2 : list (string * V)),
+    Permutation l1 l2 -> NoDup (map rank l1) -> site_elect_out rank l1 = site_elect_out rank l2.
+Proof. exact @site_elect_deterministic. Qed.
+Print Assumptions C09_site_elect_deterministic.
+
 (* ---------------------------------------------------------------- sites off the generation path *)
 
 Theorem C09_site_annset_deterministic :
